@@ -66,6 +66,8 @@ THEOREMS = [
     "XalanModel.Props.C14.excluded_not_emitted",
     "XalanModel.Props.C14.alias_replaced",
     "XalanModel.Props.C14.exec_pending_attrs_nodup_qname",
+    "XalanModel.Props.C14.copied_attribute_resolves_fixed",
+    "XalanModel.Props.C14.copied_attribute_counterexample",
 ]
 
 XML = G.XML
@@ -297,7 +299,7 @@ def make_key(case, res):
     il = G.instr_list(case)
     iid = res.get("iid", -1)
     desc = G.describe(il[iid] if 0 <= iid < len(il) else None)
-    short = sorted(set(t.replace("XalanModel.C14.", "").replace("ABranch.", "").replace("EBranch.", "") for t in res["tags"]))
+    short = sorted(set(t.replace("XalanModel.C14.", "").replace("ABranch.", "").replace("EBranch.", "").replace("CBranch.", "") for t in res["tags"]))
     return "%s@%s instr=%s feats=%s tags=%s :: %s" % (kind, tag.replace("XalanModel.C14.", ""), desc, feats,
                                                      ",".join(short) or "-", G.case_tokens(case))
 
